@@ -513,7 +513,7 @@ func (w *world) diff(before, after map[string][]byte) (accts [][]interface{}, st
 		case strings.HasPrefix(k, "account-"):
 			bb, bn, _ := parseAcct(b)
 			ab, an, _ := parseAcct(a)
-			accts = append(accts, []interface{}{w.specOf(strings.TrimPrefix(k, "account-")), bb, ab, bn, an})
+			accts = append(accts, []interface{}{w.specOf(strings.TrimPrefix(k, "account-")), bb, ab, bn, an, bok, aok})
 		case strings.HasPrefix(k, "code-"):
 			other++
 		case len(k) >= 20:
